@@ -184,6 +184,8 @@ def _small_c09(args):
         for method in ('raw', 'repr'):
             out.append(x_arith.observe_div(fx, np, [pid], tx, ty, cxs, cys, method=method, rnd=r,
                                            route=['operator', 'function', 'numpy'][(idx + len(out)) % 3]))
+    out.append(x_arith.observe_div(fx, np, [pid], tx, ty, cxs, cys, method=['raw', 'repr'][idx % 2], rnd='trunc',
+                                   hist=x_arith.HIST[idx % 4]))
     lo, hi = rng_of(tx)
     ly, hy = rng_of(ty)
     for a in sorted({lo, hi}):
@@ -313,7 +315,8 @@ def _wide_c09(args):
         cxs = [x for x in a for _ in b]
         cys = [y for _ in a for y in b]
         out.append(x_arith.observe_div(fx, np, [pid], tx, ty, cxs, cys, method=rng.choice(['raw', 'repr']),
-                                       rnd=rng.choice(['trunc', 'around', 'floor']), route=rng.choice(['operator', 'function', 'numpy'])))
+                                       rnd=rng.choice(['trunc', 'around', 'floor']), route=rng.choice(['operator', 'function', 'numpy']),
+                                       hist=rng.choice([None, None] + x_arith.HIST)))
     return [r for r in out if r is not None]
 
 
